@@ -169,17 +169,27 @@ MUTANTS = [
                     return""", """                if not self.pending_work_items:
                     return""")),
     # ----------------------------------------------------------------- R-NULLED
-    M("nulled-shutdown-nulls-processes", ["C01", "C05"], ["R-NULLED"],
-      (PE, """        self._processes_management_lock = None
+    M("nulled-shutdown-nulls-flags", ["C01", "C05"], ["R-NULLED"],
+      (PE, """            self._processes_management_lock = None
 
-    shutdown.__doc__""", """        self._processes_management_lock = None
+    shutdown.__doc__""", """            self._processes_management_lock = None
         self._flags = None
 
     shutdown.__doc__""")),
-    M("nulled-deref-in-is-shutting-down", ["C01", "C05"], ["R-NULLED"],
-      (PE, """        return _global_shutdown or (
-            (executor is None or self.executor_flags.shutdown)""", """        return _global_shutdown or (
-            (executor is None or executor._call_queue._closed or self.executor_flags.shutdown)""")),
+    # D3 (fixed in /repo): the fields are dropped while the manager thread may still need them
+    M("nulled-unconditionally-D3", ["C01", "C05", "C07"], ["R-NULLED"],
+      (PE, """        if wait or executor_manager_thread is None:
+            self._executor_manager_thread = None""", """        if True:
+            self._executor_manager_thread = None""")),
+    M("nulled-before-join", ["C01", "C05"], ["R-NULLED"],
+      (PE, """        if executor_manager_thread is not None and wait:
+            # This locks avoids""", """        self._call_queue = None
+        if executor_manager_thread is not None and wait:
+            # This locks avoids""")),
+    M("nulled-when-thread-exists", ["C01", "C05", "C07"], ["R-NULLED"],
+      (PE, """        if wait or executor_manager_thread is None:
+            self._executor_manager_thread = None""", """        if wait or executor_manager_thread is not None:
+            self._executor_manager_thread = None""")),
     # ------------------------------------------------------------------- R-POLL
     M("poll-resize-snapshot", ["C01", "C09", "C10"], ["R-POLL"],
       (RE, """            while (
@@ -1790,6 +1800,16 @@ BENIGN = [
     env = dict(os.environ)
     env.update(overlay)
     encoded_env = []""")),
+    B("benign-nulling-guard-swapped", ["C01", "C05", "C07"],
+      (PE, """        if wait or executor_manager_thread is None:
+            self._executor_manager_thread = None""", """        if executor_manager_thread is None or wait:
+            self._executor_manager_thread = None""")),
+    B("benign-nulling-early-return", ["C01", "C05", "C07"],
+      (PE, """        if wait or executor_manager_thread is None:
+            self._executor_manager_thread = None""", """        if not wait and executor_manager_thread is not None:
+            return
+        if True:
+            self._executor_manager_thread = None""")),
     B("benign-increment-spelled-out", None,
       (PE, """                    n_sentinels_sent += 1""", """                    n_sentinels_sent = n_sentinels_sent + 1"""),
       (PE, """            self._queue_count += 1""", """            self._queue_count = self._queue_count + 1"""),
